@@ -101,16 +101,17 @@ type rangeTrack struct {
 }
 
 type frame struct {
-	pc       int
-	op       *Op
-	cbSeen   int
-	expectCb bool // once.do: f must run exactly once
-	noCb     bool // once.do on a done Once: f must not run
-	contend  bool // operation must panic (would block in package sync) and leave the object unchanged
-	newID    *int // pool.get: value returned by New
-	rt       *rangeTrack
-	adjacent bool // the return record directly follows the invoke record
-	invIdx   int
+	pc         int
+	op         *Op
+	cbSeen     int
+	expectCb   bool // once.do: f must run exactly once
+	noCb       bool // once.do on a done Once: f must not run
+	contend    bool // operation must panic (would block in package sync) and leave the object unchanged
+	newID      *int // pool.get: value returned by New
+	rt         *rangeTrack
+	cbPanicked bool // the user callback panicked: the panic must propagate to the caller of this operation
+	adjacent   bool // the return record directly follows the invoke record
+	invIdx     int
 }
 
 type value struct {
@@ -308,6 +309,15 @@ func Check(sc *Scenario, res *simpool.Result) (*Verdict, map[string]int) {
 			}
 		case "cbend":
 		case "ret":
+			// a callback that panicked ("boom") aborts the nested operations above the one that returns
+			for len(stacks[g]) > 0 && stacks[g][len(stacks[g])-1].pc != pc && stacks[g][len(stacks[g])-1].op.K == "boom" {
+				aborted := stacks[g][len(stacks[g])-1]
+				stacks[g] = stacks[g][:len(stacks[g])-1]
+				if len(stacks[g]) > 0 {
+					stacks[g][len(stacks[g])-1].cbPanicked = true
+				}
+				_ = aborted
+			}
 			if len(stacks[g]) == 0 || stacks[g][len(stacks[g])-1].pc != pc {
 				return fail("malformed-history", "g%d: ret of op %d without matching inv", g, pc)
 			}
@@ -586,8 +596,16 @@ func (m *model) finish(g int, fr *frame, r *rawRes, raw json.RawMessage) *Verdic
 			if fr.cbSeen != 1 {
 				return bad("once", "f ran %d times, want exactly once", fr.cbSeen)
 			}
+			// "If f panics, Do considers it to have returned; future calls of Do return without calling f."
 			m.onceDo[o] = false
 			m.onceDn[o] = true
+			if fr.cbPanicked {
+				m.Probes["once_f_panicked"]++
+				if r.Panic == nil {
+					return bad("once", "f panicked but Do returned normally")
+				}
+				return nil
+			}
 			return noPanic()
 		}
 	// ---- nosync.Map
@@ -634,6 +652,13 @@ func (m *model) finish(g int, fr *frame, r *rawRes, raw json.RawMessage) *Verdic
 				break
 			}
 		}
+		if fr.cbPanicked {
+			m.Probes["range_f_panicked"]++
+			if r.Panic == nil {
+				return bad("map-range", "f panicked but Range returned normally")
+			}
+			return nil
+		}
 		if v := noPanic(); v != nil {
 			return v
 		}
@@ -667,6 +692,13 @@ func (m *model) finish(g int, fr *frame, r *rawRes, raw json.RawMessage) *Verdic
 	case "pool.putnil":
 		return noPanic()
 	case "pool.get":
+		if fr.cbPanicked {
+			m.Probes["pool_new_panicked"]++
+			if r.Panic == nil {
+				return bad("pool", "New panicked but Get returned normally")
+			}
+			return nil
+		}
 		if v := noPanic(); v != nil {
 			return v
 		}
